@@ -113,11 +113,21 @@ pub struct ShardCtx {
     pub nshards: usize,
     pub scratch: PathBuf,
     pub strict_known: bool,
+    /// where the shard's result goes (used for checkpoints before cases that may kill the process)
+    pub out_path: Option<PathBuf>,
 }
 
 impl ShardCtx {
     pub fn shard_seed(&self, salt: &str) -> u64 {
         mix(mix(self.seed, hash_str(&self.id)), mix(self.shard as u64, hash_str(salt)))
+    }
+    /// Saves what has been done so far, so it survives if a later case aborts the process.
+    pub fn checkpoint(&self, out: &ShardOut) {
+        if let Some(p) = &self.out_path {
+            let mut o = out.clone();
+            o.extra.insert("checkpoint".into(), json!(1));
+            let _ = std::fs::write(p, serde_json::to_string(&o).unwrap_or_default());
+        }
     }
     pub fn db_path(&self, name: &str) -> PathBuf {
         self.scratch.join(name)
@@ -561,9 +571,18 @@ pub fn run_parent(meta: &CheckMeta, tier: Tier, nshards: usize) -> i32 {
     for (i, mut ch, outp, sdir) in children {
         let st = ch.wait().expect("wait");
         let parsed = std::fs::read_to_string(&outp).ok().and_then(|s| serde_json::from_str::<ShardOut>(&s).ok());
+        let died = !st.success();
         match parsed {
-            Some(o) => merged.merge(o),
-            None => {
+            Some(mut o) if !died => {
+                o.extra.remove("checkpoint");
+                merged.merge(o)
+            }
+            other => {
+                // merge what the shard had checkpointed before it died
+                if let Some(mut o) = other {
+                    o.extra.remove("checkpoint");
+                    merged.merge(o);
+                }
                 // the shard died (signal / abort) — report the case it was executing, if recorded
                 let cur = sdir.join("current.json");
                 if let Ok(s) = std::fs::read_to_string(&cur) {
